@@ -585,7 +585,7 @@ def iter_next(eng, it):
                 return some(items[pos - 1])
             return some(new_cell(items[pos - 1]) if isinstance(items, tuple) else Ref(items, pos - 1))
         if n == 'Range':
-            lo, hi = it.f
+            lo, hi = it.f[0], it.f[1]
             ty = it_type(it)
             if eng.branch(eng.binop('Lt', lo, hi, ty)):
                 it.f[0] = eng.binop('Add', lo, 1, ty)
